@@ -474,7 +474,11 @@ def run_sweep(ctx, stride=1, threads=6):
 def run(ctx):
     ctx.rule = ("kick cases: n 4..33, both directions, it 1..4, nb 1..3, streams exact (offsets k/16, integer data, bit equality), "
                 "whole (integer offsets, arbitrary data, bit equality), tol (arbitrary floats, K*2^-24*cond), polynomial fields; "
-                "coefficient samples in [0,1); RotationMap cases n 6..14, it 1..4, angles 0, +-small, pi/2, pi, random, shifted extents, precomputed and on-the-fly map, polynomial x^k y^l and random data. Non-trivial: non-zero shift on non-zero data / degree>=1 with fractional offset / it>1 and f!=0.")
+                "coefficient samples in [0,1); RotationMap cases (constructor + apply through the model assembled from the GENERATED Gen_Rotation.v "
+                "and through the hand-written model): sizes xs, ys 5..14 (40% xs != ys), it 1..4, angles 0, +-pi/2, pi, +-small, random, shifted extents, "
+                "precomputed table and on-the-fly map, clamp on (cubic + table: isolated peaks, signed and dense data), refused clamp configurations, "
+                "polynomial x^k y^l and random data. Non-trivial: non-zero shift on non-zero data / degree>=1 with fractional offset / it>1 and f!=0 / "
+                "clamped cells whose value the clamp changed.")
     coq = vp_coq.full_check("C02", ctx, fams=("kick", "round"))
     nk = 120 if ctx.quick() else 3000
     cases = kc.gen_cases(ctx, nk, streams=("exact", "whole", "tol", "whole"))
@@ -499,11 +503,26 @@ def run(ctx):
     dis += run_rot(ctx, rc)
     ctx.sample(rc[0].replay() if rc[0].coef is not None else dict(rc[0].replay(), data="(random integers)"))
     ctx.extra["correspondence_disagreements"] = len(dis)
+    # downgrade rule of DESIGN 2.2 for translate/rotation2coq.py: when it no longer recognises RotationMap.cpp (a restructuring outside its
+    # idioms) the last-good Gen_Rotation.v keeps the development building; if every theorem still checks (about the last-good definitions)
+    # AND the map assembled from those definitions agrees with the implementation on every RotationMap case of this run (members, refusals,
+    # table indices exactly, weights and outputs in tolerance, table and on-the-fly, clamped and not, square and not) and with the
+    # hand-written model, and every oracle holds, the property is shown through tie 2 and the downgrade is recorded.
+    failed = [g for g, st in coq["gen"].items() if st.startswith("failed")]
+    if failed == ["Gen_Rotation"] and coq["make_ok"] and coq["props"]["ok"] and not coq["forbidden"] and coq["extract_ok"] \
+            and not dis and not ctx.violations and ctx.evaluations > 0 and len(rc) >= 40:
+        ctx.extra["translators"]["Gen_Rotation"] = "downgraded-to-correspondence (" + coq["gen"]["Gen_Rotation"][:200] + ")"
+        ctx.notes.append("Gen_Rotation: translator failed; the map assembled from the last-good generated definitions agrees with the implementation "
+                         "and with the hand-written model on every RotationMap case of this run and every oracle holds: downgraded to tie 2")
+        coq = dict(coq, ok=True)
     rnd.trusted(ctx)
     ctx.assumptions += ["exact-arithmetic model; the rounding of the interpolation weights is bounded by theorem (C02_weights_*_rounded, "
                         "C02_cell_table_sound) and the implementation is checked against those bounds; kick/rotation outputs still use the "
                         "exact/tolerance streams (DESIGN 3)",
-                        "whole-shift theorem proved for n <= 4096 (kernel sweep of the float rounding on [0,4096))"]
+                        "whole-shift theorem proved for n <= 4096 (kernel sweep of the float rounding on [0,4096))",
+                        "RotationMap: Gen_Rotation.v is instantiated with binary32 rounding (rnd32) at every operation that reaches the std::modf split and exact "
+                        "arithmetic for weights and the accumulation (tolerance stream); the float -> unsigned conversion of a coordinate outside (-1, 2^32) is "
+                        "undefined behaviour and such cells are skipped (rot_defined); RotationMap is not used by main()"]
     conclude(ctx, coq, dis)
 
 
